@@ -935,10 +935,11 @@ static void final_drain(void)
 	int nudged[2] = { 0, 0 };
 	for (int e = 0; e < 2; e++) {
 		struct endctx *c = &E[e];
-		if (c->wr_closed || c->wr_total + 1 > PATLEN) continue;
+		if (c->wr_closed || c->wr_total + 2 > PATLEN) continue;
 		if (c->n_err_w || c->n_err_r || c->n_err_plain || c->n_eof_w) continue;
-		c->wr_total += 1;
-		if (bufferevent_write(c->bev, pat[1 - c->id] + c->wr_total - 1, 1) != 0) { c->wr_total -= 1; continue; }
+		size_t nn = (g_type == T_FILTER && g_filt == F_NEEDMORE) ? 2 : 1;   /* the NEED_MORE filter works on pairs */
+		c->wr_total += nn;
+		if (bufferevent_write(c->bev, pat[1 - c->id] + c->wr_total - nn, nn) != 0) { c->wr_total -= nn; continue; }
 		nudged[e] = 1;
 	}
 	observe_all("final-nudge");
